@@ -8,6 +8,16 @@ HUB_NOTE = ("trusted: Coq kernel + vm_compute; the granularity of Model/Hub.v (c
             "in its header); bbolt by contract; Go drivers. The tie to the code is sequential handler-level histories (agreement with the model and with the "
             "abstract sequential spec); interleavings are covered by the theorems, and by steered schedules where a stage says so.")
 META = {
+    "C16": {
+        "text": "Coq theorems over a timed automaton of the subscribe handler (Z nanoseconds; every configuration, expiry and arrival times): the write deadline is "
+                "min(write timeout, token expiry) with absent terms dropped and the disconnection timer is armed iff a write timeout exists, one dispatch timeout earlier; "
+                "consecutive writes of an open stream are at most one heartbeat apart; no write succeeds after the deadline; with a maximum duration the handler ends "
+                "exactly at the disconnection instant (no earlier, no failed write before), otherwise only on a write attempted after the deadline. Tied to the code "
+                "by running the real handler under a virtual clock (testing/synctest) over the full configuration grid.",
+        "design_ref": "DESIGN.md §5 C16",
+        "note": "trusted: Coq kernel + vm_compute; testing/synctest and the Go 1.26 runtime; the deadline-enforcing fake ResponseWriter; eager-handler / zero-time-write idealisation",
+        "technique": "Coq proof (timed automaton, induction on steps) + differential correspondence under a virtual clock evaluated in Coq",
+    },
     "C17": {
         "text": "Coq theorems over the hub transition system: with tracking on, every schedule without crash and before any close, each subscriber has exactly [] / "
                 "[active=true] / [true;false] events according to its handler's phase (the announcement precedes indexing; the end is announced also when registration "
